@@ -119,6 +119,22 @@ CHECKS = {
    note='Trusted: Lean kernel, the hand-written model (validated by >100k compared operations per thorough run), harness. Out of the '
         'model: buffer-protocol constructors, elementwise functions, printing, integer overflow of i entries.',
    technique='Lean 4 proof over a hand-written reference model + op-sequence correspondence'),
+ 'C18': dict(
+   category='proof',
+   text='The numerical routines are the external LAPACK, so nothing about their code is proved. What is machine-checked is the meaning of the '
+        'checks and the judge that applies them: Lean theorems (Mathlib matrices over any field, every size) that a small residual is a small '
+        'backward error, that factor-then-solve (LU with pivoting, Cholesky) solves the same system as the driver, that QR gives the normal '
+        'equations and eigen / SVD factors reconstruct the input; and an exact rational matrix-expression evaluator in Lean (products, '
+        'transposes, triangles, Frobenius norms) that judges every result the wrappers return: ||AX-B|| <= 1e-9 ||A|| ||X|| for all drivers and '
+        'factor/solve pairs (general, positive definite, symmetric, hermitian, triangular, band, tridiagonal; uplo/trans/diag options; arbitrary '
+        'values in the unreferenced triangle; complex data through the real embedding), inverses, least squares, orthonormality and '
+        'reconstruction for QR/LQ, eigenvalue routines, two SVD drivers and Schur; Python-side: driver == factor+solve, A unmodified without '
+        'ipiv, sorted outputs, ArithmeticError on exactly singular / non-positive-definite input, TypeError/ValueError on inconsistent sizes and types.',
+   design_ref='DESIGN.md 11.6',
+   note='Level partial: the wrappers are judged through their results on generated inputs (orders 0..5); no model of the wrapper code exists '
+        '(the argument-prefix translator covers blas.c only). Trusted: Lean kernel, the harness (input construction, band-storage conversions), '
+        'the fixed relative tolerance 1e-9.',
+   technique='Lean 4 proof of the defining-equation algebra + exact rational result checker (Lean) applied to real LAPACK wrapper outputs'),
  'C19': dict(
    category='proof',
    text='The argument-checking prefix of all 34 wrappers of blas.c is translated from the C source into Lean functions on every run; for each '
